@@ -91,7 +91,7 @@ func c11History(c *rt.Ctx, h int) {
 	_ = V.Chdir("/")
 	env, cenv := fsx.NewEnv(V), fsx.NewEnv(C)
 	penv, qenv := fsx.NewEnv(P), fsx.NewEnv(Q)
-	gcfg := gen.Cfg{Root: "/", Names: []string{"a", "b", "c"}, Depth: 3, Links: true, Owners: true, Chdir: true, Specials: true, Unclean: true, AvoidRootOps: true, Handles: true, Walk: false}
+	gcfg := gen.Cfg{Root: "/", Names: []string{"a", "b", "c"}, Depth: 3, NoChange: true, Links: true, Owners: true, Chdir: true, Specials: true, Unclean: true, AvoidRootOps: true, Handles: true, Walk: false}
 	g := gen.New(gcfg, r)
 	var hist []string
 	replay := func() any {
